@@ -88,7 +88,7 @@ def table : List Info := [
     "unbounded recursion: a Dynamic constant reachable from its own bootstrap arguments (also pool.rs:248 for InvokeDynamic); " ++
     "acyclic argument DAGs are expanded into trees of exponential size",
     "none (`// TODO: recursion`)", .open_⟩,
-  ⟨5, "duke/src/class_reader.rs", 1416, "let inner = read_element_values",
+  ⟨5, "duke/src/class_reader.rs", 1417, "let inner = read_element_values",
     "recursion depth = element_value nesting depth = |input| / 3 (`[` arrays) or / 7 (`@` annotations); lines 1329, 1334, 1411, 1416; " ++
     "the stack of the main thread ends between 5 000 and 20 000 levels",
     "none (`// TODO: put in a limit into any recursive thing here`)", .open_⟩,
@@ -108,25 +108,25 @@ def table : List Info := [
     "recursion depth = indentation depth of nested CLASS lines (needs d lines with 0..d-1 tabs: |input| >= d*(d+11)/2, so depth <= sqrt(2|input|))",
     "none; sub-linear in the input, not exhibited (would need tens of MiB)", .bounded⟩,
   -- ------------------------------------------------------------------ guarded: modelled as checked operations, proved silent
-  ⟨20, "duke/src/class_reader.rs", 852, "r.get_ref()[(r.position() as usize)..]",
+  ⟨20, "duke/src/class_reader.rs", 853, "r.get_ref()[(r.position() as usize)..]",
     "slice from the cursor position in the second pass", "the second pass only `read_exact`s: position <= len", .guarded⟩,
-  ⟨21, "duke/src/class_reader.rs", 885, "opcode - opcode::ILOAD_0", "u8 subtraction", "match arm 0x1a..=0x2d", .guarded⟩,
-  ⟨22, "duke/src/class_reader.rs", 887, "opcode::ILOAD + (shifted >> 2)", "u8 addition", "shifted <= 19", .guarded⟩,
-  ⟨23, "duke/src/class_reader.rs", 897, "_ => unreachable!()", "iload_n family", "21 + shifted/4 in 21..=25", .guarded⟩,
-  ⟨24, "duke/src/class_reader.rs", 914, "opcode - opcode::ISTORE_0", "u8 subtraction", "match arm 0x3b..=0x4e", .guarded⟩,
-  ⟨25, "duke/src/class_reader.rs", 916, "opcode::ISTORE + (shifted >> 2)", "u8 addition", "shifted <= 19", .guarded⟩,
-  ⟨26, "duke/src/class_reader.rs", 926, "_ => unreachable!()", "istore_n family", "54 + shifted/4 in 54..=58", .guarded⟩,
+  ⟨21, "duke/src/class_reader.rs", 886, "opcode - opcode::ILOAD_0", "u8 subtraction", "match arm 0x1a..=0x2d", .guarded⟩,
+  ⟨22, "duke/src/class_reader.rs", 888, "opcode::ILOAD + (shifted >> 2)", "u8 addition", "shifted <= 19", .guarded⟩,
+  ⟨23, "duke/src/class_reader.rs", 898, "_ => unreachable!()", "iload_n family", "21 + shifted/4 in 21..=25", .guarded⟩,
+  ⟨24, "duke/src/class_reader.rs", 915, "opcode - opcode::ISTORE_0", "u8 subtraction", "match arm 0x3b..=0x4e", .guarded⟩,
+  ⟨25, "duke/src/class_reader.rs", 917, "opcode::ISTORE + (shifted >> 2)", "u8 addition", "shifted <= 19", .guarded⟩,
+  ⟨26, "duke/src/class_reader.rs", 927, "_ => unreachable!()", "istore_n family", "54 + shifted/4 in 54..=58", .guarded⟩,
   ⟨27, "duke/src/class_reader.rs", 690, "(frame_type - 64) as u16", "u8 subtraction", "match arm 64..=127", .guarded⟩,
   ⟨28, "duke/src/class_reader.rs", 698, "251 - frame_type", "u8 subtraction", "match arm 248..=250", .guarded⟩,
   ⟨29, "duke/src/class_reader.rs", 703, "frame_type - 251", "u8 subtraction", "match arm 252..=254", .guarded⟩,
   ⟨30, "duke/src/class_reader.rs", 510, "_ => unreachable!()", "align_to_4_byte_boundary", "`x & 0b11 < 4`", .guarded⟩,
-  ⟨31, "duke/src/class_reader.rs", 1145, "checked that it's Some above", "pop_front after front().is_some_and(..)",
+  ⟨31, "duke/src/class_reader.rs", 1146, "checked that it's Some above", "pop_front after front().is_some_and(..)",
     "same deque, no mutation in between (not modelled: frames do not influence the outcome)", .guarded⟩,
-  ⟨32, "duke/src/class_reader.rs", 1595, "_ => unreachable!()", "type_path kind", "outer arm 0..=2", .guarded⟩,
-  ⟨33, "duke/src/class_reader.rs", 1036, "let mut table = Vec::with_capacity(n as usize)",
+  ⟨32, "duke/src/class_reader.rs", 1596, "_ => unreachable!()", "type_path kind", "outer arm 0..=2", .guarded⟩,
+  ⟨33, "duke/src/class_reader.rs", 1037, "let mut table = Vec::with_capacity(n as usize)",
     "allocation of `high - low + 1` (< 2^31) labels in the second pass",
     "the first pass read all n offsets from the same bytes: 4n <= code_length", .guarded⟩,
-  ⟨34, "duke/src/class_reader.rs", 1053, "let mut pairs = Vec::with_capacity(n as usize)",
+  ⟨34, "duke/src/class_reader.rs", 1054, "let mut pairs = Vec::with_capacity(n as usize)",
     "allocation of `npairs` (< 2^31) pairs in the second pass", "the first pass read all n pairs: 8n <= code_length", .guarded⟩,
   ⟨35, "quill/src/lines.rs", 86, "let line = &line[idents..]",
     "byte-offset slice of a `str` at the number of leading TAB *characters*", "TAB is one byte: the offset is a char boundary <= len", .guarded⟩,
